@@ -103,6 +103,28 @@ def rule_r1(repo, run):
                           % (attr, node.value.value, defaults[attr][0].value), m.loc(node))
 
 
+    # values that are not simple constants: a parameter of create_wrapper, or literally the command-line default
+    params = set(a.arg for a in fcw.args.args)
+    for node in ast.walk(fcw):
+        if isinstance(node, ast.Assign) and isinstance(node.targets[0], ast.Attribute) and \
+                pyflow.is_name(node.targets[0].value, "args") and not isinstance(node.value, ast.Constant):
+            attr = node.targets[0].attr
+            v = node.value
+            if isinstance(v, ast.Name) and v.id in params:
+                ok, why = True, ""
+            elif attr == "filename":
+                ok = isinstance(v, ast.List) and len(v.elts) == 1 and isinstance(v.elts[0], ast.Name) and v.elts[0].id in params
+                why = "the positional file list must be [filename]"
+            elif attr in defaults and defaults[attr][0] != "<none>":
+                ok = ast.unparse(v) == ast.unparse(defaults[attr][0])
+                why = "create_wrapper uses %s where the command line defaults to %s" % (ast.unparse(v), ast.unparse(defaults[attr][0]))
+            else:
+                ok, why = False, "value %s has no counterpart on the command line" % ast.unparse(v)
+            run.check(R, "main.create_wrapper:value args.%s=%s" % (attr, ast.unparse(v)[:30]), ok,
+                      why + ": the programmatic entry point and the command line with the same arguments differ",
+                      m.loc(node), sample=dict(attr=attr, value=ast.unparse(v)))
+
+
 NODE_CLASSES = ["LibraryNode", "BlockNode", "NamespaceNode", "ClassNode", "FunctionNode", "EnumNode",
                 "TypedefNode", "VariableNode"]
 
